@@ -237,4 +237,9 @@ def flag_configs(tier: str, impls=("casadi",)) -> list:
             out.append(replace(b, flags=frozenset(["positive_init_speed", "positive_next_queue"]), impl=impl,
                                history=((frozenset(["positive_init_queue", "positive_init_density"]), "current"),
                                         (allf, "explicit"))))
+            if impl == "numpy" and b.u_origin is not None:
+                # stepped before from 1-element arrays, now from numpy scalars (0-d) of the same values
+                out.append(replace(b, flags=frozenset(), impl=impl, init="user0",
+                                   history=((frozenset(), "explicit", "rank1"),)))
+                out.append(replace(b, flags=frozenset(), impl=impl, init="user0"))
     return out
